@@ -9,6 +9,7 @@
 //!   `c14.class <mode> <el> <class>`, `c14.depth <mode> <k>` → `t`/`f`;
 //!   `c14.repl <mode> <el>` → `to <name after replacement>`; `c14.replattr <mode> <el> <attr>` → `to <attr name after>`.
 mod common;
+mod extract;
 mod gen;
 mod spec;
 
@@ -63,12 +64,21 @@ fn run_clean(cfg: &Cfg, src: &str, tree_toks: &str) -> Outcome {
     let re = dump(&Html::parse(&out_str));
     let exempt: &[&str] = if cfg.is_plain() { &[] } else { &["tbody", "tr", "colgroup"] };
     pol.walk(&re, 0, "re-parsed output", exempt, &mut t3);
-    // (c) text outside removed subtrees is kept, in order
-    let (mut want, mut got) = (String::new(), String::new());
-    pol.kept_text(&before, 0, &mut want);
+    // (c) text outside removed subtrees is kept, in order; content of removed elements is gone.
+    // The property fixes two bounds, not the exact text: everything outside subtrees that are
+    // removed by name / nested at or beyond the maximum depth (counting all element ancestors of
+    // the input) must remain; nothing from inside elements removed by name (mx-reply under
+    // reply-fallback removal) may remain. (The exact text is the theorem clean_keeps_text_in_order
+    // about the model, compared through T2.)
+    let (mut least, mut most, mut got) = (String::new(), String::new(), String::new());
+    pol.kept_text(&before, 0, &mut least);
+    pol.kept_text_with(&before, 0, false, &mut most);
     text_of(&after, &mut got);
-    if want != got {
-        t3.push(format!("text outside removed elements is not kept in order: expected {want:?}, output has {got:?}"));
+    if !subsequence(&least, &got) {
+        t3.push(format!("text outside removed elements is not kept in order: expected {least:?}, output has {got:?}"));
+    }
+    if !subsequence(&got, &most) {
+        t3.push(format!("content of removed elements remains: at most {most:?} may remain, output has {got:?}"));
     }
     // (d) the string entry points agree with parse + sanitize_with + to_string
     if cfg.is_plain() {
@@ -137,205 +147,6 @@ fn run(req: &str) -> Outcome {
         },
         _ => bad(),
     }
-}
-
-// ------------------------------------------------------------------ T1 extraction
-
-fn lean_str(s: &str) -> String {
-    // code point list (cheaper for the kernel than unfolding a string literal); the spelling is
-    // kept beside it as a comment when it is printable
-    let l = format!("[{}]", s.chars().map(|c| (c as u32).to_string()).collect::<Vec<_>>().join(", "));
-    if !s.is_empty() && s.chars().all(|c| (' '..='~').contains(&c)) && !s.contains("-/") && !s.contains("/-") {
-        format!("/-{s}-/ {l}")
-    } else {
-        l
-    }
-}
-fn lean_list(v: &[String]) -> String {
-    format!("[{}]", v.join(", "))
-}
-fn lean_strs(v: &[&str]) -> String {
-    lean_list(&v.iter().map(|s| lean_str(s)).collect::<Vec<_>>())
-}
-
-struct Table {
-    elements: Vec<&'static str>,
-    attrs: Vec<(&'static str, Vec<&'static str>)>,
-    schemes: Vec<(&'static str, &'static str, Vec<&'static str>)>,
-    classes: Vec<(&'static str, Vec<&'static str>)>,
-    max_depth: u32,
-    repl_elements: Vec<(&'static str, String)>,
-    repl_attrs: Vec<(&'static str, &'static str, String)>,
-}
-
-fn extract_mode(m: u8) -> Table {
-    let eu = spec::element_universe();
-    let au = spec::attr_universe();
-    let su = spec::scheme_universe();
-    let cu = spec::class_universe();
-    let elements: Vec<_> = eu.iter().copied().filter(|e| probe_elem(m, e)).collect();
-    let mut attrs = Vec::new();
-    let mut schemes = Vec::new();
-    let mut classes = Vec::new();
-    let mut repl_elements = Vec::new();
-    let mut repl_attrs = Vec::new();
-    let open = open_real(m);
-    for e in &eu {
-        let kept: Vec<_> = au.iter().copied().filter(|a| probe_attr(m, e, a)).collect();
-        if !kept.is_empty() {
-            attrs.push((*e, kept));
-        }
-        for a in &au {
-            if !probe_scheme(m, e, a, "zz-fresh-scheme:x") {
-                let ok: Vec<_> =
-                    su.iter().copied().filter(|s| probe_scheme(m, e, a, &format!("{s}:x"))).collect();
-                schemes.push((*e, *a, ok));
-            }
-        }
-        let ok: Vec<_> = cu.iter().copied().filter(|c| probe_class(m, e, c)).collect();
-        if !ok.is_empty() {
-            classes.push((*e, ok));
-        }
-        if let Some((n, _)) = probe_replacement(open, e, "zz") {
-            if n != *e {
-                repl_elements.push((*e, n));
-            }
-            for a in &au {
-                if let Some((_, Some((b, n)))) = probe_replacement(open, e, a) {
-                    if n != b {
-                        repl_attrs.push((*e, *a, n));
-                    }
-                }
-            }
-        }
-    }
-    let max_depth = (0..=400).find(|k| !probe_depth(m, *k)).unwrap_or(1_000_000);
-    Table { elements, attrs, schemes, classes, max_depth, repl_elements, repl_attrs }
-}
-
-fn table_lean(name: &str, doc: &str, t: &Table) -> String {
-    let mut s = format!("/-- {doc} -/\ndef {name} : ModeTable where\n");
-    s.push_str(&format!("  elements := {}\n", lean_strs(&t.elements)));
-    s.push_str(&format!(
-        "  attrs := {}\n",
-        lean_list(&t.attrs.iter().map(|(e, a)| format!("({}, {})", lean_str(e), lean_strs(a))).collect::<Vec<_>>())
-    ));
-    s.push_str(&format!(
-        "  schemes := {}\n",
-        lean_list(
-            &t.schemes
-                .iter()
-                .map(|(e, a, l)| format!("({}, {}, {})", lean_str(e), lean_str(a), lean_strs(l)))
-                .collect::<Vec<_>>()
-        )
-    ));
-    s.push_str(&format!(
-        "  classes := {}\n",
-        lean_list(&t.classes.iter().map(|(e, a)| format!("({}, {})", lean_str(e), lean_strs(a))).collect::<Vec<_>>())
-    ));
-    s.push_str(&format!("  maxDepth := {}\n", t.max_depth));
-    s.push_str(&format!(
-        "  replElements := {}\n",
-        lean_list(&t.repl_elements.iter().map(|(e, n)| format!("({}, {})", lean_str(e), lean_str(n))).collect::<Vec<_>>())
-    ));
-    s.push_str(&format!(
-        "  replAttrs := {}\n\n",
-        lean_list(
-            &t.repl_attrs
-                .iter()
-                .map(|(e, a, n)| format!("({}, {}, {})", lean_str(e), lean_str(a), lean_str(n)))
-                .collect::<Vec<_>>()
-        )
-    ));
-    s
-}
-
-/// T1: the private allow-lists, observed through one-element probes of the running implementation.
-fn extract() -> String {
-    let strict = extract_mode(1);
-    let compat = extract_mode(2);
-    let mut s = String::new();
-    s.push_str("-- GENERATED by `h-c14 c14 extract` from the running implementation. Do not edit.\n");
-    s.push_str("import RumaModel.Model.Html\nnamespace Ruma.Generated.C14\nopen Ruma Ruma.Html\n\n");
-    s.push_str("/-- The stated universes over which the private allow-lists were probed. -/\n");
-    s.push_str("def univ : Universe where\n");
-    s.push_str(&format!("  elements := {}\n", lean_strs(&spec::element_universe())));
-    s.push_str(&format!("  attrs := {}\n", lean_strs(&spec::attr_universe())));
-    s.push_str(&format!("  schemes := {}\n", lean_strs(&spec::scheme_universe())));
-    s.push_str(&format!("  classes := {}\n\n", lean_strs(&spec::class_universe())));
-    s.push_str(&table_lean("strict", "Behaviour of `SanitizerConfig::strict()` on every point of the universes.", &strict));
-    s.push_str(&table_lean("compat", "Behaviour of `SanitizerConfig::compat()` on every point of the universes.", &compat));
-
-    // The static lists of the model, assembled from the observations: strict lists from the strict
-    // table, compat-only schemes = accepted in compat but not in strict. Class *patterns* are not
-    // observable (only their accept table above is); the model takes them from the spec.
-    let group = |l: &Vec<(&'static str, &'static str, Vec<&'static str>)>| -> String {
-        let mut els: Vec<&str> = Vec::new();
-        for (e, _, _) in l {
-            if !els.contains(e) {
-                els.push(e);
-            }
-        }
-        lean_list(
-            &els.iter()
-                .map(|e| {
-                    format!(
-                        "({}, {})",
-                        lean_str(e),
-                        lean_list(
-                            &l.iter()
-                                .filter(|x| x.0 == *e)
-                                .map(|(_, a, s)| format!("({}, {})", lean_str(a), lean_strs(s)))
-                                .collect::<Vec<_>>()
-                        )
-                    )
-                })
-                .collect::<Vec<_>>(),
-        )
-    };
-    let compat_only: Vec<(&'static str, &'static str, Vec<&'static str>)> = compat
-        .schemes
-        .iter()
-        .filter_map(|(e, a, l)| {
-            let base = strict.schemes.iter().find(|x| x.0 == *e && x.1 == *a).map(|x| x.2.clone()).unwrap_or_default();
-            let extra: Vec<_> = l.iter().copied().filter(|s| !base.contains(s)).collect();
-            (!extra.is_empty()).then_some((*e, *a, extra))
-        })
-        .collect();
-    let mut dep_els: Vec<&str> = Vec::new();
-    for (e, _, _) in &strict.repl_attrs {
-        if !dep_els.contains(e) {
-            dep_els.push(e);
-        }
-    }
-    s.push_str("/-- The static lists the model is instantiated with (class patterns: see `Spec.HtmlAllow`). -/\n");
-    s.push_str("def lists (classes : List (Str × List Str)) : Lists where\n");
-    s.push_str("  elements := strict.elements\n  deprecatedElements := strict.replElements\n  attrs := strict.attrs\n");
-    s.push_str(&format!(
-        "  deprecatedAttrs := {}\n",
-        lean_list(
-            &dep_els
-                .iter()
-                .map(|e| format!(
-                    "({}, {})",
-                    lean_str(e),
-                    lean_list(
-                        &strict
-                            .repl_attrs
-                            .iter()
-                            .filter(|x| x.0 == *e)
-                            .map(|(_, a, n)| format!("({}, {})", lean_str(a), lean_str(n)))
-                            .collect::<Vec<_>>()
-                    )
-                ))
-                .collect::<Vec<_>>()
-        )
-    ));
-    s.push_str(&format!("  schemesStrict := {}\n", group(&strict.schemes)));
-    s.push_str(&format!("  schemesCompat := {}\n", group(&compat_only)));
-    s.push_str("  classes := classes\n  maxDepth := strict.maxDepth\n\n");
-    s.push_str("end Ruma.Generated.C14\n");
-    s
 }
 
 // ------------------------------------------------------------------ generation
@@ -476,5 +287,5 @@ fn main() {
         println!("{}", clean_req(&cfg, src));
         return;
     }
-    h_lib::std_main(Some(&extract), &gen, &run);
+    h_lib::std_main(Some(&|| extract::extract("C14")), &gen, &run);
 }
